@@ -178,8 +178,15 @@ def check_sizes(P, ctx):
                 elif ev['t'] == 'call' and ev['name'] == 'memset':
                     d = N.canon(ev['args'][0])
                     ln = poly.from_expr(N.canon(ev['args'][2]))
+                    off = None                      # &buf[i]  or  buf + i  (either order; the canonical form sorts the operands)
                     if d[0] == 'un' and d[1] == '&' and d[2][0] == 'idx' and d[2][1] == H:
-                        ext = poly.from_expr(d[2][2]) + ln
+                        off = d[2][2]
+                    elif d[0] == 'bin' and d[1] == '+' and H in (d[2], d[3]):
+                        off = d[3] if d[2] == H else d[2]
+                    elif d == H:
+                        off = ('int', 0)
+                    if off is not None:
+                        ext = poly.from_expr(off) + ln
                         cv = (req - ext).const_value()
                         detail.append('memset from %s length %r: extent %r' % (ir.fmt(d), ln, ext))
                         ok = ok and cv is not None and cv >= 0 and g.must_pass(n['id'], [rn['id']])
